@@ -42,58 +42,58 @@ type DelayRule struct {
 }
 
 type Scenario struct {
-	K         int      `json:"k"`
-	Seed      uint64   `json:"seed"`
-	V6        bool     `json:"v6"`
-	SACK      bool     `json:"sack"`
-	CC        string   `json:"cc"`
-	MTU       uint32   `json:"mtu"`
-	LatencyUs int      `json:"latency_us"`
-	SndBuf    [2]int   `json:"sndbuf"`
-	RcvBuf    [2]int   `json:"rcvbuf"`
-	Bytes     [2]int   `json:"bytes"`     // A->B, B->A
-	MaxChunk  [2]int   `json:"max_chunk"` // writer chunk bound
-	PaceUs    [2]int   `json:"reader_pace_us"`
-	PauseRead [2]int   `json:"reader_pause_after"` // reader of direction d pauses after this many bytes (0 = never)
-	PauseMs   [2]int   `json:"reader_pause_ms"`
-	Faults    [2]FaultCfg `json:"faults"`
-	Drops     []DropRule  `json:"drops"`
-	Delays    []DelayRule `json:"delays,omitempty"`
-	ISS       *uint32  `json:"iss_active"`
-	PassiveISS *uint32 `json:"iss_passive"`
-	Close     string   `json:"close"` // order of write-side shutdowns: "AB", "BA", "sim", "A-then-data"
-	DeadlineS int      `json:"deadline_s"`
-	Probe     bool     `json:"probe,omitempty"` // record the sender state seen by the stack's TCP probe
+	K          int         `json:"k"`
+	Seed       uint64      `json:"seed"`
+	V6         bool        `json:"v6"`
+	SACK       bool        `json:"sack"`
+	CC         string      `json:"cc"`
+	MTU        uint32      `json:"mtu"`
+	LatencyUs  int         `json:"latency_us"`
+	SndBuf     [2]int      `json:"sndbuf"`
+	RcvBuf     [2]int      `json:"rcvbuf"`
+	Bytes      [2]int      `json:"bytes"`     // A->B, B->A
+	MaxChunk   [2]int      `json:"max_chunk"` // writer chunk bound
+	PaceUs     [2]int      `json:"reader_pace_us"`
+	PauseRead  [2]int      `json:"reader_pause_after"` // reader of direction d pauses after this many bytes (0 = never)
+	PauseMs    [2]int      `json:"reader_pause_ms"`
+	Faults     [2]FaultCfg `json:"faults"`
+	Drops      []DropRule  `json:"drops"`
+	Delays     []DelayRule `json:"delays,omitempty"`
+	ISS        *uint32     `json:"iss_active"`
+	PassiveISS *uint32     `json:"iss_passive"`
+	Close      string      `json:"close"` // order of write-side shutdowns: "AB", "BA", "sim", "A-then-data"
+	DeadlineS  int         `json:"deadline_s"`
+	Probe      bool        `json:"probe,omitempty"` // record the sender state seen by the stack's TCP probe
 }
 
 type DirStats struct {
 	Offered, Accepted, Read int64
-	EOF          bool
-	ReadErr      string
-	WriteErr     string
-	Retrans      int
-	OutOfOrder   int
-	Dups         int
-	Segments     int
-	WrapCross32  bool
-	WrapCross31  bool
+	EOF                     bool
+	ReadErr                 string
+	WriteErr                string
+	Retrans                 int
+	OutOfOrder              int
+	Dups                    int
+	Segments                int
+	WrapCross32             bool
+	WrapCross31             bool
 }
 
 type Result struct {
-	Connected   bool
-	ConnectErr  string
-	Dir         [2]DirStats
-	Mismatch    string // C01 violation description
-	PastEOF     string // data after end-of-stream
-	Stalled     bool   // neither completed nor failed by the virtual deadline
-	Virtual     time.Duration
-	Identities  []string // packet identities in first-transmission order (fault-free enumeration)
-	ClosedState [2]string // "" if the closed-state observables are right
-	LastTx      [2]time.Duration
+	Connected             bool
+	ConnectErr            string
+	Dir                   [2]DirStats
+	Mismatch              string // C01 violation description
+	PastEOF               string // data after end-of-stream
+	Stalled               bool   // neither completed nor failed by the virtual deadline
+	Virtual               time.Duration
+	Identities            []string  // packet identities in first-transmission order (fault-free enumeration)
+	ClosedState           [2]string // "" if the closed-state observables are right
+	LastTx                [2]time.Duration
 	ActiveISS, PassiveISS uint32
-	Frames      int
-	FrameErrs   []string
-	Errors      [2]string // explicit endpoint errors (ErrorOption / hard errors)
+	Frames                int
+	FrameErrs             []string
+	Errors                [2]string // explicit endpoint errors (ErrorOption / hard errors)
 	// window bookkeeping per data direction d (sender = endpoint d): the window field of
 	// the last segment the receiver emitted, whether that segment was dropped by the
 	// fault plan, and the window field of the last segment actually delivered to the sender
@@ -101,7 +101,16 @@ type Result struct {
 	LastWndDropped   [2]bool
 	LastWndDelivered [2]int
 	StillActive      bool // packets were still flowing shortly before the deadline (slow, not stalled)
-	LastSender       [2]string // last sender state reported by the TCP probe of host d (diagnosis only)
+	// handshake bookkeeping (until the passive side has handed the connection to Accept):
+	// SYN-ACKs emitted by / delivered from the passive side; segments without SYN emitted by
+	// the active side, how many of them the fault plan dropped and how many were delivered;
+	// whether a SYN-ACK was delivered after the active side's last emission (unanswered).
+	Hs struct {
+		SynAckEmitted, SynAckDelivered                int
+		ClientEmitted, ClientDropped, ClientDelivered int
+		SynAckUnanswered                              bool
+	}
+	LastSender [2]string // last sender state reported by the TCP probe of host d (diagnosis only)
 }
 
 // Payload byte at offset i of direction d.
@@ -153,17 +162,17 @@ func wrapEP(e tcpip.Endpoint, wq *waiter.Queue) *ep {
 
 // Obs watches one direction of the wire.
 type Obs struct {
-	mu        *sync.Mutex // shared by both directions
-	iss       uint32
-	haveISS   bool
-	seen      map[string]int // identity -> transmissions
-	order     []string
-	maxEnd    int64 // highest relative sequence end emitted
-	lastTx    time.Duration
-	st        *DirStats
-	dropLeft  map[string]int
-	delayMs   map[string]int
-	expect    int64 // next in-order relative seq at delivery
+	mu       *sync.Mutex // shared by both directions
+	iss      uint32
+	haveISS  bool
+	seen     map[string]int // identity -> transmissions
+	order    []string
+	maxEnd   int64 // highest relative sequence end emitted
+	lastTx   time.Duration
+	st       *DirStats
+	dropLeft map[string]int
+	delayMs  map[string]int
+	expect   int64 // next in-order relative seq at delivery
 }
 
 func flagStr(f uint8) string {
@@ -301,6 +310,18 @@ func Run(sc *Scenario, frameCheck func(dir int, f *wire.Frame) string) Result {
 				resMu.Lock()
 				res.LastWndEmitted[wndDir] = int(t.Window)
 				res.LastWndDropped[wndDir] = a.Drop
+				if !res.Connected {
+					switch {
+					case dir == 1 && t.Flags&rfc.SYN != 0:
+						res.Hs.SynAckEmitted++
+					case dir == 0 && t.Flags&rfc.SYN == 0:
+						res.Hs.ClientEmitted++
+						res.Hs.SynAckUnanswered = false
+						if a.Drop {
+							res.Hs.ClientDropped++
+						}
+					}
+				}
 				resMu.Unlock()
 			}()
 			key := ""
@@ -374,6 +395,19 @@ func Run(sc *Scenario, frameCheck func(dir int, f *wire.Frame) string) Result {
 	mkDeliver := func(dir int) func(f *wire.Frame) {
 		return func(f *wire.Frame) {
 			t, err := DecodeTCP(f.Proto, f.Data)
+			if err == nil && t != nil {
+				resMu.Lock()
+				if !res.Connected {
+					switch {
+					case dir == 1 && t.Flags&rfc.SYN != 0:
+						res.Hs.SynAckDelivered++
+						res.Hs.SynAckUnanswered = true // until the active side emits something
+					case dir == 0 && t.Flags&rfc.SYN == 0:
+						res.Hs.ClientDelivered++
+					}
+				}
+				resMu.Unlock()
+			}
 			if err == nil && t != nil && t.Flags&rfc.ACK != 0 {
 				// only an ACK that is not older than the newest one delivered so far tells the
 				// sender anything about the window (a stale one is ignored by the sender)
@@ -527,6 +561,9 @@ func Run(sc *Scenario, frameCheck func(dir int, f *wire.Frame) string) Result {
 		pa.e.Close()
 		pb.e.Close()
 		time.Sleep(5 * time.Second) // let the probe connection finish closing (same time-stamp bucket: 64 s)
+		resMu.Lock()
+		res.Hs.SynAckEmitted, res.Hs.SynAckDelivered, res.Hs.ClientEmitted, res.Hs.ClientDropped, res.Hs.ClientDelivered, res.Hs.SynAckUnanswered = 0, 0, 0, 0, 0, false
+		resMu.Unlock()
 		want := *sc.PassiveISS - k
 		ca, cerr = connect(40000, &want)
 	} else {
@@ -547,7 +584,9 @@ func Run(sc *Scenario, frameCheck func(dir int, f *wire.Frame) string) Result {
 		collect(res, obs, &resMu)
 		return snapshot()
 	}
+	resMu.Lock()
 	res.Connected = true
+	resMu.Unlock()
 	omu.Lock()
 	res.ActiveISS, res.PassiveISS = obs[0].iss, obs[1].iss
 	omu.Unlock()
